@@ -55,7 +55,7 @@ CLAIMED = {
              'exhaustive phase space x 4 phase_edge values x random/block masks, plus the criteria oracle on the implementation.',
         note=NOTE),
     'C14': dict(
-        technique='Coq proof (parametric in the reducing function; exact rational linear interpolation; bin membership via digitize) + differential correspondence',
+        technique='Coq proof (parametric in the reducing function; exact rational linear interpolation; bin membership via digitize) + differential correspondence + TRANSLATION TIE (Prop_Tie_Cyclestat.v): the bodies of get_cycle_stat, get_cycle_stat_from_samples, get_augmented_cycle_stat_from_samples, bin_by_phase (phase_align is NOT tied: its per-cycle interpolant is a local callable) are regenerated from the source on every run by a fail-closed ast translator and machine-checked refinement theorems show the hand model computes exactly what the translated program computes for every oracle behaviour',
         text='Theorems (Prop_C14.v) prove for ANY function f of any result type and ANY labelling that the per-cycle statistic is f applied '
              'to precisely the samples carrying the label and that its projection is constant on each cycle and missing elsewhere; that '
              'linear interpolation with extrapolation reproduces any quantity linear in phase exactly at every grid point for every cycle of '
@@ -134,7 +134,7 @@ CLAIMED['C09'] = dict(
          'spline interpolants; it is watched by an oracle sweep with tolerances at 3x the error measured on this tree (regression guard only).',
     note=NOTE + ' IEEE rounding enters only through the explicit rounding function of wrap; np.gradient/np.unwrap/medfilt are modelled concretely and validated on dyadic data.')
 CLAIMED['C15'] = dict(
-    technique='Coq proof over a state-machine model of the Cycles container (induction over all operation histories; parametric in the reducing function; string-level condition parser) + differential correspondence of random operation histories with cache on and off + model-free oracle + TRANSLATION TIE (Prop_Tie_Cyclesobj.v): the bodies of Cycles.pick_cycle_subset, get_matching_cycles, _parse_condition, add_cycle_metric, _safe_add_metric (container state threaded explicitly, erasure proved) are regenerated from the source on every run by a fail-closed ast translator and machine-checked refinement theorems show the hand model computes exactly what the translated program computes for every oracle behaviour',
+    technique='Coq proof over a state-machine model of the Cycles container (induction over all operation histories; parametric in the reducing function; string-level condition parser) + differential correspondence of random operation histories with cache on and off + model-free oracle + TRANSLATION TIE (Prop_Tie_Cyclesobj.v): the bodies of Cycles.pick_cycle_subset, get_matching_cycles, _parse_condition, add_cycle_metric, _safe_add_metric (container state threaded explicitly, erasure proved) are regenerated from the source on every run by a fail-closed ast translator and machine-checked refinement theorems show the hand model computes exactly what the translated program computes for every oracle behaviour + SECOND TRANSLATION TIE (Prop_Tie_Cyclestat.v): the bodies of make_slice_cache and get_slice_stat_from_samples (cached path = label path) are regenerated from the source on every run by a fail-closed ast translator and machine-checked refinement theorems show the hand model computes exactly what the translated program computes for every oracle behaviour',
     text='Theorems (Prop_C15.v) prove by induction over EVERY operation history (compute metric in cycle/augmented mode for any function, add metric, '
          'timings, pick subset, chain timings, exports) that every stored metric has one entry per cycle and equals the function applied to that '
          'cycle\'s samples, that the subset is exactly the cycles satisfying all condition strings at the time of the pick numbered in order, that chains '
